@@ -336,6 +336,30 @@ def k_depfile(c):
     return line, enc_list(out) + '#' + enc_list(out), out
 
 
+def k_gnuarg(c):
+    """a real CompileResult goes through pickle (what coredata.dat does to compiler_check_cache) and the real
+    GnuLikeCompiler.has_arguments judges the fresh and the unpickled result"""
+    import contextlib
+    import pickle
+    from mesonbuild.compilers.compilers import CompileResult, RunResult
+    from mesonbuild.compilers.mixins.gnu import GnuCompiler
+    r = CompileResult(c['stdout'], c['stderr'], ['cc', '-c', 'x.c'], c['rc'], 'x.c')
+    r2 = pickle.loads(pickle.dumps(r))
+    rr = RunResult(True, c['rc'], c['stdout'], c['stderr'])
+    rr2 = pickle.loads(pickle.dumps(rr))
+
+    def verdict(res):
+        @contextlib.contextmanager
+        def wrapper(code, args, deps, mode):
+            yield res
+        stub = types.SimpleNamespace(language='c' if c['is_c'] else 'cpp', _build_wrapper=wrapper)
+        return GnuCompiler.has_arguments(stub, ['-Wx'], 'int i;', None)[0]
+    fields = lambda x: [x.stdout, x.stderr, x.returncode]  # noqa: E731
+    out = {'fresh': verdict(r), 'cached': verdict(r2), 'same_fields': fields(r) == fields(r2) and r.command == r2.command
+           and fields(rr) == fields(rr2) and rr.compiled == rr2.compiled}
+    return f'gnuarg {int(c["is_c"])}|{c["rc"]}|{enc(c["stderr"])}', f'{int(out["fresh"])}{int(out["cached"])}', out
+
+
 def k_excludes(c):
     from mesonbuild import mintro
     from mesonbuild.backend.backends import SubdirInstallData
